@@ -189,6 +189,9 @@ def check(ctx):
     ctx.count("elemwise_method_bindings", n_n)
     ctx.floor("elemwise_method_bindings", 40)
     T.argpos(ctx, lambda p: p in (EX, COL), "c36", floor=100)
+    from ._claims import check_claims
+
+    check_claims(ctx)
 
 
 VARIANTS = [
